@@ -27,8 +27,8 @@ MANIFEST = dict(
          "deletion, ill-typed fields, malformed directives/tags, unsupported signatures, odd free-text flag values) where only the property "
          "is evaluated. Every source damage is run under several selection modes (-type list, -file=<damaged file>, -file -sep, -type=*), `shoot map` "
          "additionally with 14 parameter/result-list shapes of hand-written constructors next to a ShootNew marker. Eight runtime panics and "
-         "the Clean defect were repaired in /repo; one finding region F_glob_dir (an unclosed [ in the [dir] path makes Clean's glob fail "
-         "AFTER the writes: exit 1 with files changed; witness theorem, replayed on every run). "
+         "two Clean defects were repaired in /repo (the second one F_glob_dir, a3d970c: an unclosed [ in the [dir] path made Clean's glob fail "
+         "AFTER the writes: exit 1 with files changed; kept as a regression case on every run); no finding region is left. "
          "PARTIAL by nature: absence of Go runtime panics is sampled, not proved.",
     note="Lean kernel + standard axioms; facts extractor (go/ast, name-based call graph) and black-box runs of the rebuilt binary are trusted; "
          "runtime-panic freedom rests on the damaged-input correspondence only.",
@@ -270,7 +270,8 @@ def run_histories(ctx, cases):
 
 
 def glob_cases(ctx, start):
-    """the [dir] argument holds an unclosed `[` above the module root: Clean's glob pattern is malformed (finding F_glob_dir)"""
+    """the [dir] argument holds an unclosed `[` above the module root (former finding F_glob_dir: Clean's glob pattern was malformed;
+    repaired in /repo a3d970c): an ordinary successful all-in-one run with clean-up"""
     out = []
     for i, cmd in enumerate([cligen.CMDS[ctx.seed % 4]] if ctx.quick() else cligen.CMDS):
         c = cligen.c18_case("g%d" % (start + i), cligen.BASES[cmd](), [cmd] + cligen.BASES[cmd]()["flags"] + ["-type=*", "<ABS>/w[/mod/<pkg>"],
